@@ -109,7 +109,8 @@ class Config:
         f += ["-D" + d for d in self.defines]
         f += list(self.extra)
         if COVERAGE and self.compiler == "g++":
-            f += ["--coverage", "-fprofile-update=atomic"]
+            # -O0: with optimisation identical "return 0;" / "break;" blocks are merged and their line counts with them
+            f = [x for x in f if not x.startswith("-O")] + ["-O0", "--coverage", "-fprofile-update=atomic"]
         return f
 
     def describe(self):
